@@ -342,6 +342,15 @@ def check_registry(res):
             else:
                 break
         res.case(nontrivial_key=("registry", name), outcome_key=("registry", wrapped))
+        # "It will wait by default until ..." = the registered wrapper retries until success unless the task says otherwise
+        waits_by_default = "It will wait by default" in section
+        if wrapped and bool(getattr(cur, "retry_until_success", False)) != waits_by_default:
+            res.violation(
+                f"registry:documented-default-retry-until-success:{name}",
+                f"docs/track.rst: operation {name} {'waits' if waits_by_default else 'does not wait'} until success by default, the registered "
+                f"Retry wrapper has retry_until_success={getattr(cur, 'retry_until_success', None)}",
+                {"registry": name},
+            )
         if not wrapped:
             res.violation(
                 f"registry:documented-retryable-not-wrapped:{name}",
